@@ -1,6 +1,7 @@
 INIT Init
 NEXT Next
 CONSTANTS
-  Part = "between"
+  Part = "cong"
+  Flaws = {"OriginalComplexOrdering"}
   Thorough = FALSE
 INVARIANT ImplRefines_
